@@ -2,7 +2,7 @@
 From Coq Require Import NArith List Bool.
 From ZV.Gen Require Import Gen_Seek.
 From ZV.Seek Require Import SeekTable SeekBase SeekTableProofs SeekLoadProofs SeekLoadSafe SeekWriteProofs SeekWriter.
-From ZV.Seek Require Import SeekReader SeekReaderProofs SeekEndToEnd SeekCompressProofs.
+From ZV.Seek Require Import SeekReader SeekReaderProofs SeekEndToEnd SeekCompressProofs SeekIntegrity.
 Import ListNotations.
 Local Open Scope N_scope.
 
@@ -191,3 +191,39 @@ Theorem compressStream_reads_at_most_maxFrameSize : forall H s inp orc,
   c_compress H s inp orc = c_compress H s (firstN inp (c_mfs s)) orc.
 Proof. exact c_compress_input_prefix. Qed.
 Print Assumptions compressStream_reads_at_most_maxFrameSize.
+
+(* ---------------------------------------------------------------- integrity with checksums on (after fix 943db3b)
+   NO assumption on what the frames regenerate (any bytes, any length - shorter, equal or LONGER than the table
+   entry), any hash, any decoder pacing.  If the bytes frame b regenerates do not hash to the checksum the table holds
+   for it (b non-empty per the table), then a read on a freshly opened archive that starts before the end of frame b
+   and goes past it never succeeds: the outcome is an error (corruption_detected / seekableIO) or "oracle exhausted",
+   never ROk, never an out-of-range index, never a spin.  (Before 943db3b an overlong frame escaped: its surplus was
+   returned as the next frame's data when the read ended inside the surplus.)  Not covered: reads ending exactly at or
+   before the end of the damaged frame - the checksum has not been reached, inherent to the format. *)
+Theorem damaged_frame_never_read_through : forall H content BUFF NOPROG t,
+  wf_table t -> t_flag t = true -> forall b, b < t_len t -> e_d (ent t b) < e_d (ent t (b + 1)) ->
+  H (content b) mod 4294967296 <> e_k (ent t b) ->
+  forall dst0 len offset orc,
+  offset < e_d (ent t (b + 1)) -> e_d (ent t (b + 1)) < offset + len -> offset + len <= e_d (ent t (t_len t)) ->
+  not_ok (seekable_decompress H content BUFF NOPROG t true rinit dst0 len offset orc).
+Proof. exact damaged_frame_not_read_through. Qed.
+Print Assumptions damaged_frame_never_read_through.
+
+(* ---------------------------------------------------------------- a failed seek callback (fix c859e4f) -------------
+   restart_seek_failed models the restart branch returning seekableIO because src.seek failed.  Current code
+   (cache_first = false: curFrame = (U32)-1 before the seek, position recorded after it succeeded): the state after
+   the failed call satisfies the cache invariant for EVERY table, state and target - so range_read_correct /
+   range_read_terminates apply to whatever is read next.  Witness for the code before the fix (cache assigned before the
+   seek): after reading byte 3, a failed seek towards offset 0 and a retry, the model returns success with x[4] where
+   x[0] belongs. *)
+Theorem failed_seek_leaves_consistent_cache : forall content t st target, wf_table t ->
+  Inv content t (restart_seek_failed t false st target).
+Proof. exact failed_seek_keeps_invariant. Qed.
+Print Assumptions failed_seek_leaves_consistent_cache.
+
+Theorem failed_seek_before_fix_returns_wrong_data :
+  exists st', seekable_decompress ex_H ex_content 4 16 ex_t0 true
+                (restart_seek_failed ex_t0 true after_first_read 0) [0] 1 0 (repeat (1, true) 8) = ROk 1 [50] st'
+              /\ sliceN ex_x 0 1 = [10].
+Proof. exact stale_cache_wrong_data. Qed.
+Print Assumptions failed_seek_before_fix_returns_wrong_data.
